@@ -64,6 +64,13 @@ def _stmt_end(toks, i):
     # let / expression statement / field / match arm: up to ';' or ',' at depth 0
     j = i
     while j < n:
+        if is_p(toks[j], "=") and j + 2 < n and is_p(toks[j + 1], ">") and toks[j + 1].trivia == "" and is_p(toks[j + 2], "{") \
+                and not any(is_id(x, "let") for x in toks[i:j]):
+            # a match arm whose body is a block ends with the block (a comma after it is optional)
+            c = match_close(toks, j + 2)
+            if c + 1 < n and is_p(toks[c + 1], ","):
+                return c + 2
+            return c + 1
         if toks[j].kind == "punct" and toks[j].text in OPEN:
             j = match_close(toks, j)
         elif toks[j].kind == "punct" and toks[j].text in CLOSE:
